@@ -35,8 +35,8 @@ ASSUMPTIONS = [
 TIERS = {"quick": dict(nshards=16, exh_len={"MultiDict": 2, "Headers": 2, "HeaderSet": 3}, rand=900, rand_len=(3, 40)),
          "thorough": dict(nshards=64, exh_len={"MultiDict": 3, "Headers": 3, "HeaderSet": 4}, rand=6000, rand_len=(3, 40))}
 EXHAUSTIVE_SUBSPACES = {
-    "quick": ["all histories of length <= 2 over the fixed operation-instance sets of MultiDict (38 instances) and Headers (44), length <= 3 for HeaderSet (22), from 9 initial states each"],
-    "thorough": ["all histories of length <= 3 for MultiDict and Headers from 9 initial states; length <= 4 for HeaderSet (2 initial states at length 4)"],
+    "quick": ["all histories of length <= 2 over the fixed operation-instance sets of MultiDict (38 instances) and Headers (44), length <= 3 for HeaderSet (22), from 11 (MultiDict, Headers) / 9 (HeaderSet) initial states, including mappings whose collections are empty"],
+    "thorough": ["all histories of length <= 3 for MultiDict and Headers from 11 initial states; length <= 4 for HeaderSet (2 initial states at length 4)"],
 }
 K = ["a", "A", "b"]
 V = ["1", "2", "x"]
@@ -238,7 +238,8 @@ def md_apply(W, md, m, op):
     return r, e
 
 
-MD_INITS = [None, [], [("a", "1")], [("a", "1"), ("A", "2"), ("a", "x")], {"a": "1"}, {"a": ["1", "2"]}, {"b": ("1", "x"), "a": "2"}, {"b": {"1"}}, "container"]
+MD_INITS = [None, [], [("a", "1")], [("a", "1"), ("A", "2"), ("a", "x")], {"a": "1"}, {"a": ["1", "2"]}, {"b": ("1", "x"), "a": "2"}, {"b": {"1"}}, "container",
+            {"a": [], "b": "1"}, {"b": (), "a": set()}]
 
 
 # ---------------------------------------------------------------------------------------------
@@ -431,7 +432,8 @@ def h_apply(W, h, m, op):
     return r, e
 
 
-H_INITS = [None, [], [("a", "1")], [("a", "1"), ("A", "2"), ("b", "x")], {"a": "1"}, {"a": ["1", "2"]}, {"b": ("1", "x"), "a": "2"}, [("b", "1"), ("a", "2"), ("B", "x")], "container"]
+H_INITS = [None, [], [("a", "1")], [("a", "1"), ("A", "2"), ("b", "x")], {"a": "1"}, {"a": ["1", "2"]}, {"b": ("1", "x"), "a": "2"}, [("b", "1"), ("a", "2"), ("B", "x")], "container",
+           {"a": [], "b": "1"}, {"b": ()}]
 
 
 # ---------------------------------------------------------------------------------------------
@@ -604,7 +606,12 @@ def run_history(W, rec, cls, init, hist):
     except Exception as ex:
         rec.violation(f"C08/{cls}:constructor-raises-{type(ex).__name__}", f"init {init!r}: {ex!r}", case)
         return
-    a, b = reads_f(real), mreads_f(W, model)
+    try:
+        a, b = reads_f(real), mreads_f(W, model)
+    except Exception as ex:
+        rec.violation(f"C08/{cls}:init:read-raises-{type(ex).__name__}", f"{cls}({init!r}): {ex!r}", case, monitor="model")
+        contracts.LOG.take()
+        return
     for kk in a:
         if a[kk] != b[kk]:
             rec.violation(classify(cls, None, "init"), f"{cls}({init!r}) read {kk}: real {a[kk]!r} model {b[kk]!r}", case, monitor="model")
